@@ -81,7 +81,7 @@ Proof.
     destruct (family_key_size alg _ EF ltac:(discriminate)) as [ks ->]. cbn [bind].
     destruct (negb (keyLen =? ks)); [discriminate|].
     unfold seq_. destruct (aes_new_cipher_cases keyLen) as [-> | ->]; cbn [bind]; [|discriminate].
-    rewrite kw_wrap_total by exact Hp. destruct (ptLen mod 8 =? 0); discriminate.
+    rewrite kw_wrap_total by exact Hp. destruct ((ptLen =? 0) || negb (ptLen mod 8 =? 0)); discriminate.
   - (* ChaCha20-Poly1305 *)
     destruct (negb (keyLen =? 32)); [discriminate|].
     destruct (negb (nonceLen =? (if x then 24 else 12))) eqn:EN; [discriminate|].
